@@ -87,6 +87,7 @@ func (l *listener) Serve() error {
 	port := l.cfg.GetAddress().GetPort()
 	address := fmt.Sprintf("%s:%d", ip, port)
 
+	verifPause("listener.serve.enter", l)
 	var ln net.Listener
 	for {
 		select {
@@ -115,6 +116,7 @@ func (l *listener) Serve() error {
 		}
 	}
 
+	verifPause("listener.bound", l)
 	l.ln = ln
 	l.Infof("start serving at %s", ln.Addr().String())
 	l.serve()
